@@ -482,6 +482,13 @@ type RestrictParams struct {
 	// last/exit hop.
 	BlindedPaymentPathSet *BlindedPaymentPathSet
 
+	// TotalAmt is the total amount of the payment that the amount passed
+	// to findPath is a shard of. It is communicated to the final hop in
+	// the MPP record and therefore needed to determine the hop size of the
+	// last/exit hop. If zero, the amount passed to findPath is assumed to
+	// be the total amount.
+	TotalAmt lnwire.MilliSatoshi
+
 	// FirstHopCustomRecords includes any records that should be included in
 	// the update_add_htlc message towards our peer.
 	FirstHopCustomRecords lnwire.CustomRecords
@@ -1606,9 +1613,17 @@ func lastHopPayloadSize(r *RestrictParams, finalHtlcExpiry int32,
 		return finalHop.PayloadSize(0), nil
 	}
 
+	// The MPP record tells the final hop the total amount of the payment,
+	// which is larger than the amount of this htlc if we are sending a
+	// shard.
+	totalAmt := amount
+	if r.TotalAmt > totalAmt {
+		totalAmt = r.TotalAmt
+	}
+
 	var mpp *record.MPP
 	r.PaymentAddr.WhenSome(func(addr [32]byte) {
-		mpp = record.NewMPP(amount, addr)
+		mpp = record.NewMPP(totalAmt, addr)
 	})
 
 	var amp *record.AMP
